@@ -615,7 +615,10 @@ Fairness ==
 LiveSpec == Spec /\ Fairness
 
 Pending(c) == p.pc[c] \in {"start", "wait", "woken", "aborted"}
-Served == \A c \in Clients : Pending(c) ~> (p.pc[c] \in {"hold", "failed"})
+(* a behaviour that exhausts the model's task identifiers (p.err, a bound of  *)
+(* the model and not of the pool) says nothing about the pool: it is exempt   *)
+Served == \A c \in Clients :
+    Pending(c) ~> (p.pc[c] \in {"hold", "failed"} \/ p.err = "model: out of task ids")
 
 -----------------------------------------------------------------------------
 (* ---- C15 ----------------------------------------------------------------*)
